@@ -8,6 +8,7 @@ import (
 // clauses of the property (each compares an implementation program with a reference program)
 const (
 	clMount     = "mount-vs-group"         // P (mounts)                      vs P' (groups)
+	clMountCfg  = "mount-other-subapp-config-vs-group" // P (sub-apps created with the opposite routing config) vs P' (groups)
 	clMountLate = "late-mount-vs-group"    // P (mounted first, filled later) vs P' (groups)
 	clMapOrder  = "map-order"              // P under a deviating map order   vs P under the default order
 	clFlat      = "group-vs-fullpath"      // P' (groups)                     vs P'' (full paths)
